@@ -244,27 +244,74 @@ def enc_name(chk, program, rule='ENC-NAME'):
                       expected=f"{byid} only (lookup tries {plain} first)", found=[x for x in (plain, byid) if x in g.funcs])
         else:
             chk.check(plain in g.funcs, rule, f"{d.key}", file=PG, line=g.funcs.get(plain, {'line': 0})['line'], expected=plain, found=[x for x in (plain, byid) if x in g.funcs])
-    # the lookup order in encoder._call_encode_function: f'encode_pgn_{PGN}' then f'encode_pgn_{PGN}_{id}'
-    fn = program.fn('encoder', 'NMEA2000Encoder._call_encode_function')
-    ex = sym.SymExec(fn)
-    import ast
-    fstrs = [n for n in ast.walk(fn) if isinstance(n, ast.JoinedStr)]
-    shapes = []
-    for js in fstrs:
-        t = ex.expr(js)
-        if t[0] == 'fstr':
-            parts = []
-            for p in t[1]:
-                if p[0] == 'const':
-                    parts.append(p[1])
-                else:
-                    v = p[1]
-                    parts.append('{' + (v[2] if v[0] == 'attr' else '?') + '}')
-            shapes.append(''.join(parts))
-    shapes = [s for s in shapes if s.startswith('encode_pgn_')]
-    chk.check(shapes[:2] == ['encode_pgn_{PGN}', 'encode_pgn_{PGN}_{id}'], rule, '_call_encode_function::name-formation', file='nmea2000/encoder.py', line=fn.lineno,
-              expected=['encode_pgn_{PGN}', 'encode_pgn_{PGN}_{id}'], found=shapes)
+    # how _call_encode_function forms the names: decided by interpretation for every definition
+    enc_lookup(chk, program, rule)
     chk.unit('encoder_names', n)
+
+def enc_lookup(chk, program, rule='ENC-NAME'):
+    """NMEA2000Encoder._call_encode_function interpreted (absint) for every database definition: `globals()` is the generated module's function
+    table, the message carries the definition's PGN and id.  Obligation: exactly the definition's own encoder is called, once, with the message
+    itself, and its result is what is returned; an unknown PGN raises.  Any spelling of the lookup passes if it does that."""
+    import ast
+    from . import absint as A
+    from .wire import is_logger
+    db, g = program.db, program.gen
+    fn = program.fn('encoder', 'NMEA2000Encoder._call_encode_function')
+    E = 'nmea2000/encoder.py'
+    table = A.ADict({name: A.AObj(generated_function=name) for name in g.funcs if name.startswith('encode_pgn_')})
+    cls = program.cls('encoder', 'NMEA2000Encoder')
+    methods = {n.name: n for n in cls.body if isinstance(n, (ast.FunctionDef, ast.AsyncFunctionDef))}
+    funcs = {q: f for q, f in program.mod('encoder').defs.items() if '.' not in q}
+    def run(pgn, mid):
+        calls = []
+        def hook(it, call, env):
+            f = call.func
+            if isinstance(f, ast.Name) and f.id == 'globals' and not call.args:
+                return table
+            if isinstance(f, ast.Name) and isinstance(env.get(f.id), A.AObj) and 'generated_function' in env[f.id].attrs:
+                args = [it.expr(a, env) for a in call.args]
+                calls.append((env[f.id].attrs['generated_function'], args))
+                return A.AObj(result_of=env[f.id].attrs['generated_function'])
+            return NotImplemented
+        msg = A.AObj(PGN=A.AInt(pgn), id=A.AStr([('lit', mid)]), fields=A.AOpaque('fields'), source=A.AInt(1), destination=A.AInt(255), priority=A.AInt(3))
+        it = A.Interp(hook=hook, skip=is_logger, methods=methods, functions=funcs)
+        selfo = A.AObj()
+        selfo.attrs.update(A.class_constants(None, cls))
+        try:
+            r = it.call_function(fn, [selfo, msg])
+        except A.RaiseSignal as e:
+            return ('raise', A.exc_kind(e), calls, msg)
+        return ('return', r, calls, msg)
+    n = 0
+    unknown = None
+    for d in db.defs:
+        if not d.group.complex and d is not d.group.defs[-1]:
+            continue
+        want = f"encode_pgn_{d.pgn}_{d.id}" if d.group.complex else f"encode_pgn_{d.pgn}"
+        if want not in g.funcs:
+            continue          # reported by the table half of ENC-NAME
+        try:
+            out = run(d.pgn, d.id)
+        except A.Unknown as u:
+            unknown = str(u)
+            break
+        n += 1
+        kind, r, calls, msg = out
+        ok = kind == 'return' and len(calls) == 1 and calls[0][0] == want and len(calls[0][1]) == 1 and calls[0][1][0] is msg and isinstance(r, A.AObj) and r.attrs.get('result_of') == want
+        chk.check(ok, rule, f"lookup::{d.key}", file=E, line=fn.lineno, func='_call_encode_function',
+                  expected=f"{want}(message) is called once and its result returned", found='ok' if ok else {'outcome': kind, 'calls': [c[0] for c in calls], 'result': repr(r)[:60]},
+                  detail='' if ok else 'the message is encoded by another definition\'s encoder, or not at all')
+    if unknown is None:
+        try:
+            out = run(1, 'noSuchDefinition')
+            chk.check(out[0] == 'raise' and out[1] == 'ValueError' and not out[2], rule, 'lookup::unknown-pgn', file=E, line=fn.lineno, func='_call_encode_function',
+                      expected='ValueError, nothing called', found={'outcome': out[0], 'what': repr(out[1])[:60], 'calls': [c[0] for c in out[2]]})
+        except A.Unknown as u:
+            unknown = str(u)
+    if unknown is not None:
+        chk.unknown(rule, '_call_encode_function', f"not interpretable: {unknown}", E, fn.lineno)
+    chk.unit('encoder_lookups_interpreted', n)
+    return n
 
 def round_rule(chk, program, sites, rule='ROUND'):
     """every scaled value -> integer tick conversion passes through round (or divides by an integer resolution)"""
@@ -468,12 +515,6 @@ def enc_state(chk, program, rule='ENC-STATE'):
                 chk.check(ok, rule, f"{q}::self.{node.attr}", file=E, line=node.lineno, func=q,
                           expected='no instance state besides the sequence counter of _encode_fast_message', found=f"self.{node.attr} {'written' if isinstance(node.ctx, ast.Store) else 'read'} in {q}",
                           detail='' if ok else 'state kept between messages (a cache of encode functions or identifiers) makes the bytes of one message depend on the messages encoded before it')
-    fn = program.fn('encoder', 'NMEA2000Encoder._call_encode_function')
-    # encode_func is assigned only from globals().get(<name>)
-    for node in ast.walk(fn):
-        if isinstance(node, ast.Assign) and any(isinstance(t, ast.Name) and t.id == 'encode_func' for t in node.targets):
-            v = node.value
-            okv = isinstance(v, ast.Call) and ast.unparse(v.func) == 'globals().get' and len(v.args) >= 1 and isinstance(v.args[0], ast.Name)
-            chk.check(okv, rule, f"_call_encode_function::encode_func={ast.unparse(v)[:40]}", file=E, line=node.lineno, func='_call_encode_function',
-                      expected='encode_func = globals().get(<name formed from this message>)', found=ast.unparse(v)[:80])
+    # which function encodes a message depends on that message only: decided by interpretation for every definition (enc_lookup)
+    enc_lookup(chk, program, rule)
     chk.unit('encoder_self_accesses', n)
